@@ -2,7 +2,7 @@
 C08 — round 5 property theorems: keys with dots.  `readKeys` / `getValue` / `getValueWithChainedKeys` are inside the model
 (`Model.lookupKey`); `accept_sound`, `accept_complete`, `no_panic` and the clause theorems of PropsR4 now speak about the path
 through them, for every option set (`Cfg.opaqueKeys` = WithOpaqueKeys on/off together with every other option) and for both
-positions of a struct (`Cfg.nested`).  Here: what the lookup is, clause by clause.
+positions of a struct (`Cfg.anc`: the enclosing objects).  Here: what the lookup is, clause by clause.
 -/
 import GoZero.C08.PropsR4
 namespace GoZero.C08.Props
@@ -11,27 +11,37 @@ open GoZero.C08 GoZero.C08.Spec
 /-- **opaque keys are literal** — under `WithOpaqueKeys` (rest/httpx form and path) every key, with or without dots, is looked
 up as it is written, whatever the rest of the configuration and wherever the struct sits -/
 theorem lookupKey_opaque (c : Cfg) (h : c.opaqueKeys = true) (key : Str) (m : Obj) :
-    lookupKey c key m = .ok (getKey key m) := by
-  simp [lookupKey, h]
+    lookupKey c false key m = .ok (getKey key m) := by
+  simp [lookupKey, firstLookup, h]
 
 /-- a key without dots is looked up as it is written under every configuration -/
 theorem lookupKey_plain (c : Cfg) (key : Str) (m : Obj) (h : key.contains '.' = false) :
-    lookupKey c key m = .ok (getKey key m) := by
+    lookupKey c false key m = .ok (getKey key m) := by
   unfold lookupKey
   rw [h]
-  simp
+  simp [firstLookup]
 
 /-- the lookup of a key never panics and never depends on the options other than `opaqueKeys` and the position -/
-theorem lookupKey_options (c : Cfg) (key : Str) (m : Obj) :
-    lookupKey c key m = lookupKey { opaqueKeys := c.opaqueKeys, nested := c.nested } key m
-    ∧ lookupKey c key m ≠ .error .panic :=
-  ⟨rfl, NP_lookupKey c key m⟩
+theorem lookupKey_options (c : Cfg) (inh : Bool) (key : Str) (m : Obj) :
+    lookupKey c inh key m = lookupKey { opaqueKeys := c.opaqueKeys, anc := c.anc } inh key m
+    ∧ lookupKey c inh key m ≠ .error .panic :=
+  ⟨rfl, NP_lookupKey c inh key m⟩
+
+/-- **`inherit`** (round 5c: inside the model) — a field tagged `inherit` whose key has no dots (or is opaque) is looked up through
+`recursiveValuer.Value` on the current object followed by the enclosing ones (`Cfg.anc`), i.e. (`recLookup_is_recValue` below,
+PropsR4.recValue_found_iff / recValue_scalar_nearest / recValue_inherits) the nearest binding wins -/
+theorem lookupKey_inherit (c : Cfg) (key : Str) (m : Obj) (h : c.opaqueKeys = true ∨ key.contains '.' = false) :
+    lookupKey c true key m = recLookup false (m :: c.anc) key := by
+  unfold lookupKey
+  rcases h with h | h
+  · simp [h, firstLookup]
+  · rw [h]; simp [firstLookup]
 
 /-- the same document, the same key text: the chained lookup finds the nested binding, the opaque one the literal binding -/
 example :
-    (match lookupKey {} "p.a".toList [("p".toList, .obj [("a".toList, .num "5".toList)]), ("p.a".toList, .num "9".toList)] with
+    (match lookupKey {} false "p.a".toList [("p".toList, .obj [("a".toList, .num "5".toList)]), ("p.a".toList, .num "9".toList)] with
       | .ok (some (.num s)) => s == "5".toList | _ => false) = true
-    ∧ (match lookupKey { opaqueKeys := true } "p.a".toList
+    ∧ (match lookupKey { opaqueKeys := true } false "p.a".toList
         [("p".toList, .obj [("a".toList, .num "5".toList)]), ("p.a".toList, .num "9".toList)] with
       | .ok (some (.num s)) => s == "9".toList | _ => false) = true := by
   constructor <;> decide
@@ -99,13 +109,13 @@ this input is bound under its key AS WRITTEN in every accepted parameter map: a 
 form field `p.a` -/
 theorem clause_required_supplied_opaque {c : Cfg} {name tv : Str} {isSl : Bool} {k : Kind} {m : Obj} {w : Val}
     {conv : J → Val → Bool} {dflt : Str → Val → Bool} {isZ : Val → Bool} {key : Str} {po : Option Opts}
-    (hop : c.opaqueKeys = true)
+    (hop : c.opaqueKeys = true) (hinh : optInherit po = false)
     (hsat : fieldSat c name (some tv) isSl (some k) m w conv (fun _ => false) dflt isZ = true)
     (hp : parseTagC c.repaired name tv = .ok (key, po)) (hkey : key ≠ "-".toList)
     (hd : (effOpts po).default = []) (hopt : declOptional (effOpts po) m = false) :
     (getKey key m).isSome = true := by
   obtain ⟨j0, hj⟩ := clause_required_supplied hsat hp hkey hd hopt
-  rw [lookupKey_opaque c hop] at hj
+  rw [hinh, lookupKey_opaque c hop] at hj
   have : getKey key m = some j0 := by injection hj
   simp [this]
 
